@@ -368,9 +368,45 @@ def stale_reference_rule(prog, res):
             m = re.match(r'^std::vector<(.*)>$', fl['type'])
             if m:
                 vec[m.group(1)] = fl['name']
+        # containers of the same element type anywhere below this object (reached through owned sections)
+        deep = {}
+        for cq_, c_ in prog.classes.items():
+            for fl in c_['fields']:
+                m = re.match(r'^std::vector<(.*)>$', fl['type'])
+                if m:
+                    deep.setdefault(m.group(1), set()).add(fl['name'])
         for pi, prm in enumerate(f.params):
             m = re.match(r'^const (.*) &$', prm['type'])
-            if not m or m.group(1) not in vec:
+            if not m:
+                continue
+            if m.group(1) not in vec:
+                # the container lives in a section this object owns: the growth happens inside a callee
+                names = deep.get(m.group(1), set())
+                # one specific container (no element selection on the way to it): elements of containers nested in other
+                # containers keep their address when the outer one grows (relocation-stable classes, judged elsewhere)
+                growd = [e for e in E.events_of(f, 'this') if len(e[2]) >= 2 and e[2][-1] in names and '[]' not in e[2] and e[3] in ('resize', 'insert', 'assign', 'erase', 'clear', 'append')]
+                if not growd:
+                    continue
+                g = f.events()
+                uses = [x for x in f.all_nodes({'DeclRefExpr'}) if x['decl'].get('dk') == 'param' and x['decl'].get('id') == prm['id']]
+                badd = None
+                for e in growd:
+                    ev = g.vertex_of.get(e[0])
+                    if ev is None:
+                        continue
+                    after = g.reach([ev])
+                    late = [u for u in uses if g.vertex_of.get(u['id']) in after and u['id'] not in f.descendants(e[0])]
+                    if late:
+                        badd = (e, late[0])
+                        break
+                npar += 1
+                inst = '%s::%s: argument `%s` may be an element of %s' % (f.cls.split('::')[-1], f.name, prm['name'], '.'.join(growd[0][2]))
+                if badd:
+                    e, u = badd
+                    res.viol('dangling', inst, f.loc(u['id']), 'the container may be reallocated by %s at %s and the argument is read afterwards: when the caller passes an element of that '
+                             'container (x.%s(x.data().%s(0))) the reference dangles' % (FX.fmt(e), f.loc(e[0]), f.name, f.name), function=f.sig, expr='param-alias:' + prm['name'])
+                else:
+                    res.ok('dangling', inst, f.loc(), 'the argument is not read after the call that may reallocate %s' % '.'.join(growd[0][2]), function=f.sig, expr='param-alias:' + prm['name'])
                 continue
             cont = vec[m.group(1)]
             npar += 1
